@@ -12,10 +12,17 @@
 (* AsCoded = TRUE (MC_ArpIcmpAsCodedGw.cfg) - a host that cannot resolve   *)
 (* an address of its own subnet sends the frame to its default gateway     *)
 (* (known finding); BadId = TRUE (MC_ArpIcmpBadId.cfg) - a mutant whose    *)
-(* echo replies carry another identifier than the request.                 *)
+(* echo replies carry another identifier than the request; AnyPort = TRUE  *)
+(* (MC_ArpIcmpAnyPort.cfg) - a mutant router that answers an ARP request   *)
+(* for the address of ANY of its enabled interfaces with the MAC of the    *)
+(* interface that heard it.                                                *)
+(* Layout 1: the network above.  Layout 2 (mixed masks on one segment):    *)
+(* host p with a wide mask (its subnet also holds the far router port and  *)
+(* host q) -- r -- q.  Layout 3: host p and TWO ports of router r in one    *)
+(* broadcast domain, one subnet.                                           *)
 EXTENDS ArpIcmp, TLC
 
-CONSTANTS MaxStim, MaxPings, AsCoded, BadId, Pingers, Toggle
+CONSTANTS MaxStim, MaxPings, AsCoded, BadId, AnyPort, Layout, Pingers, Toggle
 
 VARIABLES nstim,     \* stimuli so far
           tried,     \* <<n, ip>> send_arp_request calls of the current top-level call
@@ -23,18 +30,25 @@ VARIABLES nstim,     \* stimuli so far
 mvars == <<avars, nstim, tried, pend>>
 View == <<dvars, nstim, tried, pend>>
 
-IFS == << [node |-> 1, ip |-> 1, net |-> 1, mac |-> 1, seg |-> 1],
-          [node |-> 2, ip |-> 2, net |-> 1, mac |-> 2, seg |-> 1],
-          [node |-> 3, ip |-> 3, net |-> 1, mac |-> 3, seg |-> 1],
-          [node |-> 3, ip |-> 6, net |-> 2, mac |-> 4, seg |-> 2],
-          [node |-> 4, ip |-> 5, net |-> 2, mac |-> 5, seg |-> 2] >>
-KIND == <<"host", "host", "router", "host">>
-GW == <<3, 0, 0, 6>>
-NETOF == <<1, 1, 1, 1, 2, 2, 0>>
-AllIps == 1..7
+I(n, ip, mac, seg) == [node |-> n, ip |-> ip, mac |-> mac, seg |-> seg]
+IFS == CASE Layout = 1 -> << I(1, 1, 1, 1), I(2, 2, 2, 1), I(3, 3, 3, 1), I(3, 6, 4, 2), I(4, 5, 5, 2) >>
+         [] Layout = 2 -> << I(1, 1, 1, 1), I(2, 2, 2, 1), I(2, 3, 3, 2), I(3, 4, 4, 2) >>
+         [] Layout = 3 -> << I(1, 1, 1, 1), I(2, 2, 2, 1), I(2, 3, 3, 1) >>
+KIND == CASE Layout = 1 -> <<"host", "host", "router", "host">>
+          [] Layout = 2 -> <<"host", "router", "host">>
+          [] Layout = 3 -> <<"host", "router">>
+GW == CASE Layout = 1 -> <<3, 0, 0, 6>> [] Layout = 2 -> <<2, 0, 3>> [] Layout = 3 -> <<0, 0>>
+\* addresses: layout 1: 4 = dead address of network 1, 7 = on no network; layout 2: 5 = dead address that only p's wide
+\* mask holds; layout 3: 4 = dead address
+SUB == CASE Layout = 1 -> << {1, 2, 3, 4}, {1, 2, 3, 4}, {1, 2, 3, 4}, {5, 6}, {5, 6} >>
+         [] Layout = 2 -> << {1, 2, 3, 4, 5}, {1, 2}, {3, 4}, {3, 4} >>
+         [] Layout = 3 -> << {1, 2, 3, 4}, {1, 2, 3, 4}, {1, 2, 3, 4} >>
+AllIps == CASE Layout = 1 -> 1..7 [] Layout = 2 -> 1..5 [] Layout = 3 -> 1..4
+NN == 1..Len(KIND)
+NI == 1..Len(IFS)
 
 Init ==
-    /\ ArpInit(IFS, KIND, GW, NETOF, [n \in 1..4 |-> TRUE], [i \in 1..5 |-> TRUE], [n \in 1..4 |-> Empty])
+    /\ ArpInit(IFS, KIND, GW, SUB, [n \in NN |-> TRUE], [i \in NI |-> TRUE], [n \in NN |-> Empty])
     /\ nstim = 0 /\ tried = {} /\ pend = [ifup |-> {}, hello |-> {}]
 
 Idle == ping.n = 0 /\ wire = {} /\ owed = {} /\ fwd = {} /\ tok = {} /\ tried = {}
@@ -47,9 +61,9 @@ CodedHop(n, ip) ==      \* as coded: the gateway also stands in for an unresolve
     IF AsCoded /\ kind[n] = "host" /\ gw[n] # 0 /\ Hop(n, ip) = ip /\ ip \notin DOMAIN cache[n] /\ <<n, ip>> \in tried
     THEN gw[n] ELSE Hop(n, ip)
 Ready(n, hop) == hop # 0 /\ hop \in DOMAIN cache[n] /\ up[cache[n][hop].ifc] /\ power[n]
-Frame(k, out, edst, isrc, idst, id, seq, tip, tmac) ==
+Frame(k, out, edst, isrc, idst, id, seq, sip, smac, tip, tmac) ==
     [fid |-> nfid, k |-> k, out |-> out, edst |-> edst, isrc |-> isrc, idst |-> idst, id |-> id, seq |-> seq,
-     tip |-> tip, tmac |-> tmac]
+     sip |-> sip, smac |-> smac, tip |-> tip, tmac |-> tmac]
 Deliveries == \E i \in Ifs, f \in wire : Deliverable(i, f)
 \* nothing is in flight any more
 Settled == ~Deliveries /\ owed = {} /\ fwd = {} /\ tok = {} /\ \A n \in Nodes : ask[n].left = 0
@@ -92,7 +106,7 @@ MAskTx(n) ==
        THEN /\ ask' = [ask EXCEPT ![n] = NoAsk] /\ act' = <<"AskDrop", n>>
             /\ UNCHANGED <<cvars, power, up, cache, tally, ping, owed, fwd, tok, wire, got, nfid, last>>
        ELSE LET i == CHOOSE i \in outs : TRUE IN
-            Tx(Frame("areq", i, Bcast, ifs[i].ip, ask[n].tip, 0, 0, ask[n].tip, 0), TRUE)
+            Tx(Frame("areq", i, Bcast, ifs[i].ip, ask[n].tip, 0, 0, ifs[i].ip, ifs[i].mac, ask[n].tip, 0), TRUE)
     /\ UNCHANGED <<nstim, tried, pend>>
 
 \* somebody needs `hop' resolved: one send_arp_request per address and call
@@ -108,7 +122,8 @@ MResolve(n, hop) ==
 
 MArpReply(o) ==
     /\ o \in owed /\ o.k = "arep" /\ up[o.via] /\ power[o.n]
-    /\ Tx(Frame("arep", o.via, o.mac, ifs[o.via].ip, o.to, 0, 0, o.to, o.mac), TRUE)
+    /\ \E out \in LocalUpIf(o.n, o.to) :       \* the reply names the owner, it leaves through any interface towards the asker
+          Tx(Frame("arep", out, o.mac, ifs[out].ip, o.to, 0, 0, ifs[o.via].ip, ifs[o.via].mac, o.to, o.mac), TRUE)
     /\ UNCHANGED <<nstim, tried, pend>>
 MEchoReply(o) ==
     /\ o \in owed /\ o.k = "erep"
@@ -116,14 +131,22 @@ MEchoReply(o) ==
        /\ Ready(o.n, hop)
        /\ LET out == cache[o.n][hop].ifc IN
           Tx(Frame("erep", out, cache[o.n][hop].mac, ifs[out].ip, o.to, IF BadId THEN o.id + 1 ELSE o.id,
-                   o.seq + 1, 0, 0), TRUE)
+                   o.seq + 1, 0, 0, 0, 0), TRUE)
+    /\ UNCHANGED <<nstim, tried, pend>>
+\* (mutant AnyPort) a router interface that heard a request for the address of ANOTHER enabled interface of its router
+\* answers it with its own MAC
+MRogueReply(i, g) ==
+    /\ AnyPort /\ g \in wire /\ g.k = "areq" /\ <<g.fid, i>> \in got /\ kind[ifs[i].node] = "router" /\ up[i]
+    /\ g.tip # ifs[i].ip /\ OwnUp(ifs[i].node, g.tip)
+    /\ ~\E h \in wire : h.k = "arep" /\ h.out = i /\ h.sip = g.tip /\ h.tip = g.sip
+    /\ Tx(Frame("arep", i, g.smac, ifs[i].ip, g.sip, 0, 0, g.tip, ifs[i].mac, g.sip, g.smac), TRUE)
     /\ UNCHANGED <<nstim, tried, pend>>
 MForward(t) ==
     /\ t \in fwd
     /\ LET hop == Hop(t.n, t.idst) IN
        /\ Ready(t.n, hop)
        /\ LET out == cache[t.n][hop].ifc IN
-          Tx(Frame(t.k, out, cache[t.n][hop].mac, t.isrc, t.idst, t.id, t.seq, 0, 0), TRUE)
+          Tx(Frame(t.k, out, cache[t.n][hop].mac, t.isrc, t.idst, t.id, t.seq, 0, 0, 0, 0), TRUE)
     /\ UNCHANGED <<nstim, tried, pend>>
 \* what cannot be sent after its address was asked for is given up
 Stuck(n, ip) == LET hop == CodedHop(n, ip) IN
@@ -131,7 +154,7 @@ Stuck(n, ip) == LET hop == CodedHop(n, ip) IN
     \/ (hop \notin DOMAIN cache[n] /\ (<<n, hop>> \in tried \/ LocalIf(n, hop) = {}) /\ ask[n].left = 0 /\ ~Deliveries
         /\ ~\E o \in owed : o.k = "arep")
 MGiveUp ==
-    /\ \/ \E o \in owed : /\ (IF o.k = "arep" THEN ~up[o.via] \/ ~power[o.n] ELSE Stuck(o.n, o.to))
+    /\ \/ \E o \in owed : /\ (IF o.k = "arep" THEN ~up[o.via] \/ ~power[o.n] \/ LocalUpIf(o.n, o.to) = {} ELSE Stuck(o.n, o.to))
                           /\ owed' = owed \ {o} /\ UNCHANGED fwd
        \/ \E t \in fwd : Stuck(t.n, t.idst) /\ fwd' = fwd \ {t} /\ UNCHANGED owed
     /\ act' = <<"GiveUp">>
@@ -143,7 +166,7 @@ MEchoRequest ==
     /\ LET n == ping.n  hop == CodedHop(n, ping.tgt) IN
        /\ Ready(n, hop)
        /\ LET out == cache[n][hop].ifc IN
-          Tx(Frame("ereq", out, cache[n][hop].mac, ifs[out].ip, ping.tgt, nstim, ping.sent + 1, 0, 0), TRUE)
+          Tx(Frame("ereq", out, cache[n][hop].mac, ifs[out].ip, ping.tgt, nstim, ping.sent + 1, 0, 0, 0, 0), TRUE)
     /\ UNCHANGED <<nstim, tried, pend>>
 MEchoSkip ==
     /\ ping.n # 0 /\ ping.sent < ping.cnt /\ Settled
@@ -164,24 +187,32 @@ AIfDown == \E i \in Toggle : MIfDown(i)
 AIfUp == \E i \in Toggle : MIfUp(i)
 APowerOff == \E i \in Toggle : MPowerOff(IFS[i].node)
 APowerOn == \E i \in Toggle : MPowerOn(IFS[i].node)
-AClear == \E n \in 1..4 : MClear(n)
-AComesUp == \E i \in 1..5 : MComesUp(i)
-AHello == \E n \in 1..4 : MHello(n)
-AAskTx == \E n \in 1..4 : MAskTx(n)
-AResolve == \E n \in 1..4, hop \in AllIps : MResolve(n, hop)
-ADeliver == \E i \in 1..5, fid \in {f.fid : f \in wire} : MDeliver(i, fid)
+AClear == \E n \in NN : MClear(n)
+AComesUp == \E i \in NI : MComesUp(i)
+AHello == \E n \in NN : MHello(n)
+AAskTx == \E n \in NN : MAskTx(n)
+AResolve == \E n \in NN, hop \in AllIps : MResolve(n, hop)
+ADeliver == \E i \in NI, fid \in {f.fid : f \in wire} : MDeliver(i, fid)
+ARogue == \E i \in NI, g \in wire : MRogueReply(i, g)
 AArpReply == \E o \in owed : MArpReply(o)
 AEchoReply == \E o \in owed : MEchoReply(o)
 AForward == \E t \in fwd : MForward(t)
 ACount == \E t \in tok : MCount(t)
 Next ==
     \/ APing \/ ALookup \/ AIfDown \/ AIfUp \/ APowerOff \/ APowerOn \/ AClear
-    \/ AComesUp \/ AHello \/ AAskTx \/ AResolve \/ ADeliver \/ AArpReply \/ AEchoReply \/ AForward \/ ACount
+    \/ AComesUp \/ AHello \/ AAskTx \/ AResolve \/ ADeliver \/ AArpReply \/ AEchoReply \/ AForward \/ ACount \/ ARogue
     \/ MGiveUp \/ MEchoRequest \/ MEchoSkip \/ MPingEnd \/ MQuiet
 Spec == Init /\ [][Next]_mvars
 
 \* clauses as invariants / action properties of the model
 CacheOnlyByRx == [][CacheStep]_mvars
+\* an ARP reply names the (address, MAC) pair of one interface of the replying node that owns the address, and there
+\* are never more replies than requests for it
+ArpReplyOnlyByOwner ==
+    \A f \in wire : f.k = "arep" =>
+        /\ \E j \in IfsOf(ifs[f.out].node) : ifs[j].ip = f.sip /\ ifs[j].mac = f.smac
+        /\ Cardinality({h \in wire : h.k = "arep" /\ h.sip = f.sip /\ h.tip = f.tip})
+              <= Cardinality({g \in wire : g.k = "areq" /\ g.tip = f.sip /\ g.sip = f.tip})
 \* a reply on the wire answers a request on the wire with the same identifier, and there are never more replies
 \* than requests under one identifier
 EchoReplySameIdentifier ==
@@ -189,8 +220,10 @@ EchoReplySameIdentifier ==
         /\ \E g \in wire : g.k = "ereq" /\ g.id = f.id
         /\ Cardinality({h \in wire : h.k = "erep" /\ h.id = f.id /\ h.out = f.out})
               <= Cardinality({g \in wire : g.k = "ereq" /\ g.id = f.id})
-\* an echo / data frame for an address of a subnet of the (host) sender goes to that address's own MAC
+\* an echo frame of a host for an address of one of its subnets goes to the MAC its cache holds for that address
+\* (entries never change while frames are on the wire)
 UnicastToResolvedMac ==
-    \A f \in wire : (f.k \in {"ereq", "erep"} /\ kind[ifs[f.out].node] = "host" /\ LocalIf(ifs[f.out].node, f.idst) # {})
-                        => \E j \in Ifs : ifs[j].ip = f.idst /\ ifs[j].mac = f.edst
+    \A f \in wire : LET n == ifs[f.out].node IN
+        (f.k \in {"ereq", "erep"} /\ kind[n] = "host" /\ LocalIf(n, f.idst) # {})
+            => (f.idst \in DOMAIN cache[n] /\ cache[n][f.idst].mac = f.edst)
 =============================================================================
